@@ -250,6 +250,8 @@ var c02Snippets = []string{
 	`func f(p *T) int { return p.X }; type T struct { X int }; var q *T; r := f(q); r`,
 	"func boom(a int, b int) int {\n\tz := 0\n\treturn a / z\n}\nfunc f(n int) int {\n\treturn boom(\n\t\tn,\n\t\t2)\n}\nx := f(\n\t3)\n",
 	"type T struct { N int }\nfunc (t *T) M(a int,\n\tb int) int {\n\tvar p *T\n\treturn p.N + a + b\n}\nfunc g(t *T) int {\n\treturn t.M(\n\t\t1,\n\t\t2)\n}\ny := g(&T{})\n",
+	`func f() int { m := map[uint32]int{}; m[4000000000] = 7; m[1] = m[4000000000] + 1; var k uint32 = 4000000000; return m[k]*100 + m[1] }; r := f(); r`,
+	`func f() int { m := map[float64]int{}; m[3000000000] = 7; k := 3000000000.0; return m[k] + m[3000000000] }; r := f(); r`,
 	`func f(a int) int { switch a { case 1, 2: a = a + 10; case 3: a--; default: a = a * a }; return a }; x := f(1); y := f(3); z := f(5); x; y; z`,
 }
 
